@@ -541,6 +541,29 @@ Fixpoint m1_store_ops (st : m1state) (tiles : list mtile) : list m1op :=
       o ++ m1_store_ops (m1_apply_all st o) r
   end.
 
+(* ---------------- CompactCacheBase.store_tiles: the routing decision in front of the two paths above.
+   `tiles` = the pending tiles of the call (t.stored tiles are skipped by both paths) with the bundle file of each
+   (the key of _get_bundle_fname_and_offset).  bundle_files = the set of these keys; tile_coord = the coordinate of
+   the last pending tile.  More than one tile and exactly one key: ONE Bundle.store_tiles(tiles) call on the bundle of
+   tile_coord, which receives ALL tiles of the call and reduces every coordinate modulo 128 (so the batch handed to
+   that bundle is every (slot, data) of the call, whatever bundle the tile belongs to); otherwise one store_tile per
+   tile (m_store_ops / m1_store_ops). *)
+Definition c_bundle_of (t : mtile) : Z := fst (fst t).
+Definition c_last_bundle (tiles : list mtile) : Z := last (map c_bundle_of tiles) 0.
+Definition c_single_bundle (tiles : list mtile) : bool :=
+  (1 <? Z.of_nat (length tiles)) && forallb (fun t => c_bundle_of t =? c_last_bundle tiles) tiles.
+Definition c_all_slots (tiles : list mtile) : batch := map (fun t => (snd (fst t), snd t)) tiles.
+
+Definition c_store_ops (st : mstate) (tiles : list mtile) : list mop :=
+  if c_single_bundle tiles
+  then let bl := c_last_bundle tiles in map (fun w => (bl, w)) (v2_store_ops (st bl) (c_all_slots tiles))
+  else m_store_ops st tiles.
+
+Definition c1_store_ops (st : m1state) (tiles : list mtile) : list m1op :=
+  if c_single_bundle tiles
+  then let bl := c_last_bundle tiles in map (fun w => (bl, w)) (v1_store_ops (st bl) (c_all_slots tiles))
+  else m1_store_ops st tiles.
+
 
 (* ------------------------------------------------------------------------------------------------ *)
 (* Part 4: bundle files as files of a compact cache directory: the initialisation of a missing bundle / index file
